@@ -152,21 +152,22 @@ def check(run):
     betas = corr.expibeta_strata(rng, 3 if quick else 10)
     rotors = corr.rotor_strata(rng, 6 if quick else 24)
     # ---- correspondence (bitwise) ----
-    kern.corr_tables(run, [0, 1, 2, 7] if quick else [0, 1, 2, 3, 7, 20, 40])
+    run.attempt("corr:corr_tables", kern.corr_tables, run, [0, 1, 2, 7] if quick else [0, 1, 2, 3, 7, 20, 40])
     cfgs = [(0, 0), (1, 0), (1, 1), (2, 1), (2, 2), (3, 3), (5, 2), (8, 8), (12, 1), (12, 12)] if quick else \
         [(L, P) for L in range(0, 10) for P in range(0, L + 1)] + [(16, 5), (24, 24), (32, 3), (32, 32), (48, 17)]
-    bad = kern.corr_H(run, cfgs, betas, corr.POISONS[:2] if quick else corr.POISONS)
-    preps = kern.prep_rotors(run, rotors + subnormal_band_rotors())
+    bad = run.attempt("corr:corr_H", kern.corr_H, run, cfgs, betas, corr.POISONS[:2] if quick else corr.POISONS)
+    preps = run.attempt("corr:euler", kern.prep_rotors, run, rotors + subnormal_band_rotors(), default={})
     zs = [(lab, complex(p["z"][i])) for (lab, R) in rotors for p in [preps.get(R)] if p for i in (0, 2)]
-    kern.corr_cpow(run, zs[:40] if quick else zs, [0, 1, 2, 3, 17] if quick else [0, 1, 2, 3, 5, 17, 64, 200])
-    kern.corr_d(run, [(0, 0), (3, 0), (6, 2)] if quick else [(0, 0), (1, 1), (3, 0), (6, 2), (12, 0), (20, 7)], betas, poison=float("nan"))
-    kern.corr_D(run, [(0, 0), (2, 0), (5, 1), (8, 0)] if quick else [(0, 0), (1, 0), (2, 0), (5, 1), (8, 0), (12, 4), (20, 0)], rotors, preps, poison=float("nan"))
+    run.attempt("corr:corr_cpow", kern.corr_cpow, run, zs[:40] if quick else zs, [0, 1, 2, 3, 17] if quick else [0, 1, 2, 3, 5, 17, 64, 200])
+    run.attempt("corr:corr_d", kern.corr_d, run, [(0, 0), (3, 0), (6, 2)] if quick else [(0, 0), (1, 1), (3, 0), (6, 2), (12, 0), (20, 7)], betas, poison=float("nan"))
+    run.attempt("corr:corr_D", kern.corr_D, run, [(0, 0), (2, 0), (5, 1), (8, 0)] if quick else [(0, 0), (1, 0), (2, 0), (5, 1), (8, 0), (12, 4), (20, 0)], rotors, preps, poison=float("nan"))
     # ---- gap monitor / failing-input search: documented definition (mpmath) ----
     deep = bool(run.broken)
     wrapper_checks(run)
     gap_D(run, [4, 24] if quick and not deep else ([4, 24, 64] if quick else [4, 24, 64, 128, 256]), rotors, 6 if quick else 10)
+    gap_D(run, [0, 1, 2], rotors[::3], 6)     # the smallest calculators (ell_max = 0 is the lower edge of "all calculator sizes")
     gap_D(run, [12], subnormal_band_rotors(), 6)
-    gap_d(run, [16] if quick else [16, 96, 256], betas, 6 if quick else 10)
+    gap_d(run, [0, 1, 16] if quick else [0, 1, 16, 96, 256], betas, 6 if quick else 10)
     run.assumptions += ["numba compiles IEEE operations in source order without contraction (re-measured by the bitwise correspondence every run)",
                         "rounding-error bound K=16 (ell+1) eps is checked by oracle sampling only (no theorem): DESIGN.md §5",
                         "identification of the recursion's exact limit with the documented polynomial for ell>1 is not proved (IsGDFamily hypothesis)"]
